@@ -9,7 +9,7 @@ ISIGS = [-2, 9]        # interrupt signals
 
 PROFILES = {
  # name: (ops with weights, nproc range, extra)
- "wait":   dict(ops={"hold":5,"tadd":3,"tcancel":1,"tclear":1,"wproc":3,"wevent":3,"evresched":1,"evcancel":1,"intr":3,"stop":1,"exit":1,"yield":1,"resume":1,"prio":1,"start":1,"acq":1,"rel":1}, np=(2,3), uev=1),
+ "wait":   dict(ops={"hold":5,"tadd":3,"taddo":1,"tcancel":1,"tclear":1,"wproc":3,"wevent":3,"evresched":1,"evcancel":1,"intr":3,"stop":1,"exit":1,"yield":1,"resume":1,"prio":1,"start":1,"acq":1,"rel":1}, np=(2,3), uev=1),
  "res":    dict(ops={"acq":6,"rel":5,"pre":2,"hold":5,"tadd":2,"intr":2,"stop":1,"exit":1,"prio":2,"wproc":1}, np=(2,4), uev=0),
  "pool":   dict(ops={"pacq":6,"prel":5,"ppre":3,"hold":5,"tadd":2,"intr":2,"stop":1,"prio":2,"exit":1}, np=(2,4), uev=0),
  "buf":    dict(ops={"bput":6,"bget":6,"hold":4,"tadd":2,"intr":2,"stop":1,"prio":1}, np=(2,4), uev=0),
@@ -30,6 +30,7 @@ def gen_instr(rng, op, np, me, caps):
     if op == "tcancel": return "tcancel %d" % rng.randint(1, 2)
     if op == "tclear": return "tclear"
     if op == "wproc": return "wproc %d" % q
+    if op == "taddo": return "taddo %d %d %d" % (q, rng.choice([0, 1, 2, 3]), rng.choice(SIGS))
     if op == "wevent": return "wevent 1"
     if op == "evresched": return "evresched 1 %d" % rng.choice([0, 1, 2, 3])
     if op == "evcancel": return "evcancel 1"
@@ -208,7 +209,7 @@ def gen_soup(rng, pid, fixed=False):
     if fixed:
         np_, caps, bufunit = SHAPES[fixed]["np"], dict(SHAPES[fixed]["caps"]), 0
     lines = ["prog %d" % pid, "cap res=%d pool=%d buf=%d oq=%d pq=%d bufunit=%d" % (caps["res"], caps["pool"], caps["buf"], caps["oq"], caps["pq"], bufunit)]
-    allops = ["hold"] * 6 + ["tadd"] * 3 + ["tcancel", "tclear", "wproc", "wproc", "wevent", "intr", "intr", "stop", "exit", "yield", "resume", "prio", "prio", "start",
+    allops = ["hold"] * 6 + ["tadd"] * 3 + ["taddo", "tcancel", "tclear", "wproc", "wproc", "wevent", "intr", "intr", "stop", "exit", "yield", "resume", "prio", "prio", "start",
               "acq", "acq", "acq", "rel", "rel", "pre", "pacq", "pacq", "prel", "prel", "ppre", "bput", "bput", "bget", "bget", "qput", "qget", "pqput", "pqget",
               "pqcancel", "pqreprio", "cwait", "cwait", "csig", "setflag", "setflag", "ccancel", "cremove", "csub", "cunsub"]
     for p in range(1, np_ + 1):
